@@ -542,17 +542,22 @@ pub fn parse_number<'a, const FORMAT: u128, const IS_PARTIAL: bool>(
     {
         let base_prefix = format.base_prefix();
         let mut iter = byte.integer_iter();
+        let prefix_start = iter.cursor();
         if base_prefix != 0 && iter.read_if_value_cased(b'0').is_some() {
             // Check to see if the next character is the base prefix.
             // We must have a format like `0x`, `0d`, `0o`.
             // NOTE: The check for empty integer digits happens below so
             // we don't need a redundant check here.
-            is_prefix = true;
-            if iter.read_if_value(base_prefix, format.case_sensitive_base_prefix()).is_some()
-                && iter.is_buffer_empty()
-                && format.required_integer_digits()
-            {
-                return Err(Error::EmptyInteger(iter.cursor()));
+            if iter.read_if_value(base_prefix, format.case_sensitive_base_prefix()).is_some() {
+                is_prefix = true;
+                if iter.is_buffer_empty() && format.required_integer_digits() {
+                    return Err(Error::EmptyInteger(iter.cursor()));
+                }
+            } else {
+                // The base prefix is optional: without it, the `0` is an
+                // ordinary leading digit of the integer, so give it back.
+                // SAFETY: safe, `prefix_start` was a cursor of this iterator.
+                unsafe { iter.set_cursor(prefix_start) };
             }
         }
     }
